@@ -51,7 +51,7 @@ claim("C05", "M+K", "SMT bounded model checking of MIR with SHA-256 uninterprete
       "Kernel level: the counterparty-secret store. Engine M (symbolic seed, uninterpreted hash, top m commitment indices in protocol order): every honest secret is accepted, every revoked index stays recoverable and equals the seed-derived secret, a secret that does not derive the stored lower secrets is refused and the store is unchanged. Engine K: place_secret for all u64, slot masks, get_min_seen_secret. The EC check of a secret against the announced commitment point and all call-sequence rules are outside the claim.",
       "trusted: rustc MIR dump, engine_m, z3/cvc5, Kani/CBMC; native replay runs the same sequences with real SHA-256 on a fixed seed")
 claim("C12", "M+K", "Kani/CBMC bounded model checking of the codec primitives and TLV macros; SMT bounded model checking of MIR (z3 + cvc5) for writer/reader field wiring over an abstract TLV record stream",
-      "Kernel level: codec primitives (ints, U48, BigSize, CollectionLength, HighZeroBytesDroppedBigSize, bool, Option) round-trip and canonical-form rejection for every input <= 10 bytes; FixedLengthReader bounds; the real TLV macros on a probe struct (ordering, required/unknown-even/odd rules, exact lengths, truncation) (Kani). Engine M: the persisted ClaimableHTLC written by write_claimable_htlc reads back through its separately written reader with every field intact, for all field values and optional-field combinations, leaf codecs and byte lengths abstracted. Other large persisted objects are outside the claim.",
+      "Kernel level: codec primitives (ints, U48, BigSize, CollectionLength, HighZeroBytesDroppedBigSize, bool, Option) round-trip and canonical-form rejection for every input <= 10 bytes; FixedLengthReader bounds; the real TLV macros on a probe struct (ordering, required/unknown-even/odd rules, exact lengths, truncation) (Kani). Engine M: the persisted ClaimableHTLC (write_claimable_htlc vs its separately written reader), ChannelConfig and ChannelUpdateInfo read back with every field intact, for all field values and optional-field combinations, leaf codecs and byte lengths abstracted. Other large persisted objects are outside the claim.",
       "trusted: Kani/CBMC; Kani-only model of bitcoin-io's io::Error payload (harness/patched/bitcoin-io); rustc MIR dump, engine_m, z3/cvc5; stream stubs listed in obligations/tlv_stream.py")
 claim("C13", "M+K", "Kani/CBMC bounded model checking of the compiled codecs; SMT bounded model checking of MIR (z3 + cvc5) for the node_announcement address section, incl. one inductive loop step",
       "Kernel level: key-free peer messages round-trip for arbitrary field values; decoding of bounded arbitrary inputs is total, canonical and never reads past the buffer; unknown even TLVs rejected, odd ignored, out-of-range bool rejected (Kani). Engine M: address-descriptor lengths for all kinds and hostname lengths; the node_announcement decoder's address section with the byte source as a nondeterministic stub - accepted announcements account for exactly addrlen bytes (no address overruns addrlen), no panic, for <= 2 (quick) / 4 (thorough) descriptors, plus one loop iteration from an arbitrary invariant-satisfying loop-head state (any number of earlier addresses, any source length < 2^40). Messages with keys/signatures, onion packets and wire::read are outside the claim.",
